@@ -18,9 +18,11 @@
 
     ticker <idx> <L|F> <R ms> <n ticks> <script: ok|nl|err|ld|fl,…|.>
       → #<idx> calls=<ms,…|.> closed=<ms>:<errclass>|never      (cmd/syncer.go clusterTicker)
-    ident <idx> <cluster 0|1> <listen hex> <listenPeer hex> <unspec 0|1>
+    ident <idx> <cluster 0|1> <listen hex> <listenPeer hex>
       → #<idx> id=<hex> | refused                                (election identity)
-    contend …   (monitor-only, no output)
+    leasettl <idx> <lease ns> <renew ns>                         (real run(): ttl written to the store, ticker period)
+      → #<idx> ttl=<seconds> renew=<ns>
+    contend … / shared …   (monitor-only, no output)
 
     cfgfix <idx> <groupName set 0|1> <lease ns> <renew ns>     (whole yaml through InitSyncerConfig)
       → #<idx> nocluster | <lease'> <renew'> <ttl>
@@ -177,13 +179,21 @@ def handle : List String → Option (List String)
         | none => "never"
       some [s!"#{idx} calls={calls} closed={closed}"]
     | _, _, _ => some [s!"#{idx} bad-op"]
-  | ["ident", idx, cl, listen, peer, unspec] =>
+  | ["ident", idx, cl, listen, peer] =>
     match Hex.decode listen, Hex.decode peer with
     | some l, some p =>
-      match electionId (cl == "1") l p (unspec == "1") with
+      match electionId (cl == "1") l p with
       | some id => some [s!"#{idx} id={Hex.encode id}"]
       | none => some [s!"#{idx} refused"]
     | _, _ => some [s!"#{idx} bad-op"]
+  | ["leasettl", idx, lease, renew] =>
+    -- what the real run() hands to the lease store / to the ticker
+    match lease.toInt?, renew.toInt? with
+    | some l, some r =>
+      let f := fixCfg { lease := l, renew := r }
+      some [s!"#{idx} ttl={ttlSeconds f} renew={f.renew}"]
+    | _, _ => some [s!"#{idx} bad-op"]
+  | "shared" :: _ => some []       -- monitor-only op (one client, two keys, stalled reply)
   | "contend" :: _ => some []      -- monitor-only op (two hosts' configurations; no model output)
   | ["cfgfix", idx, group, lease, renew] =>
     -- (*SyncConfig).fix: a cluster section without groupName is dropped, otherwise ClusterConfig.fix
